@@ -11,6 +11,7 @@
    reconstruction of payments / claims / events from the monitors after a resume or a close. -/
 import LdkModel.Proofs.Restart
 import LdkModel.Proofs.Reconstruct
+import LdkModel.Proofs.EventReplay
 namespace Ldk.C10
 open Ldk.Restart
 
@@ -485,9 +486,26 @@ example : (let n : NodeW := { chans := [⟨1, some { mgr := ⟨3, 3, [], ⟨9, 9
                                        ⟨0, none, [], [], false, [], []⟩], queue := [], pays := fun _ => none }
     (fails n, (claims n).map (·.src), effectiveFails n)) = ([(.prev 0 7, .channelClosed)], [.prev 0 7], []) := by decide
 
-/-- CANDIDATE FINDING (reported to the integrator, see the final report): the `dropped_outbound_htlcs` disjunct has NO monitor check.
-    A forward that sat in the stale manager's holding cell and that the newer monitor lists as committed and still pending (no preimage)
-    is failed back upstream by the read while it is live downstream (real world: scenario 1, seed 7862637804313477842, p=53 q=34). -/
+/-- KF-C10-6 (known finding), every node world: whatever `force_shutdown` drops from a channel closed as OutdatedChannelManager
+    (holding-cell adds, LocalAnnounced HTLCs of a blocked commitment) is failed back — the `dropped_outbound_htlcs` disjunct has NO
+    monitor check, so this holds even when the channel's newer monitor lists the very same HTLC as committed and still pending;
+    unless a claim of the same source is replayed the fail-back takes effect upstream. -/
+theorem kf_c10_6_dropped_htlc_failed_whatever_the_monitor_lists (n : NodeW) (c : ChanW) (hc : c ∈ n.chans) (hst : c.stale = true)
+    (s : Src) (hd : s ∈ c.mgrDropped) :
+    (s, .channelClosed) ∈ fails n ∧ ((∀ cl ∈ claims n, cl.src ≠ s) → (s, .channelClosed) ∈ effectiveFails n) := by
+  have hf : (s, FailReason.channelClosed) ∈ fails n := by
+    unfold fails
+    exact List.mem_append.mpr (Or.inl (List.mem_flatMap.mpr ⟨c, hc, (mem_staleFailsOf c s _).mpr ⟨hst, rfl, Or.inl hd⟩⟩))
+  refine ⟨hf, fun hn => ?_⟩
+  unfold effectiveFails
+  refine List.mem_filter.mpr ⟨hf, ?_⟩
+  simp only [Bool.not_eq_true', Bool.and_eq_false_iff, List.any_eq_false, beq_iff_eq]
+  exact Or.inr (fun cl hcl => by simpa using hn cl hcl)
+
+/-- KF-C10-6, the real world (scenario 1, seed 7862637804313477842, manager of q=34, channel 2's monitor of point 37 / 46): the forward
+    of inbound HTLC (1,0) sat in channel 2's holding cell when the manager was written; the newer monitor lists it as committed and
+    pending (no preimage); the read fails it upstream while it is live downstream (the harness' end-to-end probe then lets the
+    downstream peer claim it on chain: the forwarder loses the amount). -/
 example : (let n : NodeW := { chans := [⟨2, some { mgr := ⟨4, 4, [], ⟨9, 9, 9⟩⟩, mon := ⟨7, ⟨9, 9, 9⟩⟩ }, [⟨.prev 1 0, false⟩], [], false, [], [.prev 1 0]⟩,
                                        ⟨1, some { mgr := ⟨2, 2, [], ⟨9, 9, 9⟩⟩, mon := ⟨2, ⟨9, 9, 9⟩⟩ }, [], [], false, [], []⟩], queue := [], pays := fun _ => none }
     (effectiveFails n, (n.chans.head!).monHtlcs)) = ([(.prev 1 0, .channelClosed)], [⟨.prev 1 0, false⟩]) := by decide
@@ -585,5 +603,53 @@ example : (let st := reach 0 ⟨9, 9, 9⟩ [.update ⟨1, 0, 0⟩ false, .comple
 /-- all in-flight updates reached the disk: MonitorUpdatesComplete with the highest in-flight id; one missing: it is replayed -/
 example : (bgEvents { mgr := ⟨4, 4, [3, 4], ⟨9, 9, 9⟩⟩, mon := ⟨4, ⟨9, 9, 9⟩⟩ }, bgEvents { mgr := ⟨4, 4, [3, 4], ⟨9, 9, 9⟩⟩, mon := ⟨3, ⟨9, 9, 9⟩⟩ })
     = ([.updatesComplete 4], [.regenerated 4]) := by decide
+
+/-! ### Persistent events are re-delivered until handled (Model/EventReplay.lean)
+
+An outbound HTLC of a closed channel times out on chain; `OutboundPayments::fail_htlc` queues `PaymentPathFailed` and
+`PaymentFailed` and attaches the `ReleasePaymentComplete` completion action to one of them (GENERATED `failHtlcPushes`,
+translated from the Rust text on every run).  The handler may accept any prefix of the pending events and have the rest replayed,
+the manager may be written at any point, the node may crash at any point, any number of times (`erun`: every op list). -/
+
+/-- after ANY run and a crash at its end: if the HTLC's timeout is buried, `Event::PaymentFailed` has been handled by the
+    application or is pending again in the restarted manager (where it stays until handled) -/
+theorem terminal_event_redelivered (ops : List EOp) :
+    let s := erun failHtlcPushes ops
+    s.failedOnchain = true →
+      s.handledTerminal = true ∨ (reloadE failHtlcPushes s.disk s.closed s.failedOnchain s.resolved).terminalPending = true := by
+  intro s h
+  have hd := (run_inv failHtlcPushes_good (ops ++ [.crash])).d
+  have hs : erun failHtlcPushes (ops ++ [.crash]) = estep failHtlcPushes s .crash := by
+    simp [erun, List.foldl_append, s]
+  rw [hs] at hd
+  exact hd h
+
+/-- without a crash at the end as well: the terminal event is handled or still pending in the live manager -/
+theorem terminal_event_pending_until_handled (ops : List EOp) :
+    let s := erun failHtlcPushes ops
+    s.failedOnchain = true → s.handledTerminal = true ∨ s.live.terminalPending = true :=
+  (run_inv failHtlcPushes_good ops).d
+
+/-- the monitor stops reporting the HTLC (`htlcs_resolved_to_user`) only after `Event::PaymentFailed` itself was handled -/
+theorem monitor_forgets_only_after_terminal_handled (ops : List EOp) :
+    (erun failHtlcPushes ops).resolved = true → (erun failHtlcPushes ops).handledTerminal = true :=
+  (run_inv failHtlcPushes_good ops).a
+
+/-- the same for ANY attachment of the completion action that puts it on the terminal event only -/
+theorem terminal_event_redelivered_of_good_attachment (T : Pushes) (hT : GoodPushes T) (ops : List EOp) :
+    (erun T (ops ++ [.crash])).failedOnchain = true →
+      (erun T (ops ++ [.crash])).handledTerminal = true ∨ (erun T (ops ++ [.crash])).live.terminalPending = true :=
+  (run_inv hT (ops ++ [.crash])).d
+
+/-- non-vacuity: PaymentPathFailed handled, PaymentFailed replayed, crash, manager written before the timeout: PaymentFailed is back -/
+example : (let s := erun failHtlcPushes [.close, .persist, .timeout, .handle 1, .crash]
+    (s.failedOnchain, s.handledTerminal, s.resolved, s.live.terminalPending, s.live.part)) = (true, false, false, true, false) := by decide
+/-- with the completion action on PaymentPathFailed instead (the table the translator produces for seeded change C10-r4) the very
+    same run loses the terminal event for good: the monitor no longer reports the HTLC, the manager copy still has the part in flight -/
+example : (let s := erun (fun full => if full then [(false, true), (true, false)] else [(false, true)]) [.close, .persist, .timeout, .handle 1, .crash]
+    (s.failedOnchain, s.handledTerminal, s.resolved, s.live.terminalPending, s.live.part)) = (true, false, true, false, true) := by decide
+/-- a manager copy written before the closure (stale): the HTLC is failed through the OutdatedChannelManager path once it is resolved -/
+example : (let s := erun failHtlcPushes [.persist, .close, .timeout, .handle 2, .crash]
+    (s.handledTerminal, s.resolved, s.live.queue)) = (true, true, [⟨false, false⟩, ⟨true, false⟩]) := by decide
 
 end Ldk.C10
